@@ -259,7 +259,10 @@ func runC04(env *Env, tier string) {
 
 	// ---- logon, possibly with the gap on the Logon itself ----
 	logonGap := 0
-	if peer789 == 0 && ch.Chance("logongap", 1, 4) { // (a counterparty using tag 789 fills a gap on the Logon on its own, unasked)
+	// (a counterparty using tag 789 fills a gap on the Logon on its own, from the number the engine's Logon
+	// announced: whether the engine also asks is not judged then - zero or one exact ResendRequest - everything
+	// else is: the early messages are kept, delivered in order and not requested again)
+	if (peer789 == 0 || c.ChunkSize == 0) && ch.Chance("logongap", 1, 4) {
 		logonGap = 1 + ch.Choose("logongapsize", 6)
 		for i := 0; i < logonGap; i++ {
 			alloc(ch.Chance("plan", 1, 2))
@@ -305,15 +308,23 @@ func runC04(env *Env, tier string) {
 			}
 			return e == m.marker
 		}
-		if len(rrs) != 1 || rrs[0].IntOr(7, -1) != 1 || !okEnd(rrs[0].IntOr(16, -1)) {
+		if peer789 > 0 && len(rrs) == 0 {
+			env.Stat("probe_gap_on_logon_peer_with_tag_789_no_request")
+			rrs = append(rrs, RecvMsg{})
+			m.open = true
+			m.logonNum = logonSeq
+			m.lastRRb, m.lastRRe = 1, 0
+		} else if len(rrs) != 1 || rrs[0].IntOr(7, -1) != 1 || !okEnd(rrs[0].IntOr(16, -1)) {
 			env.Violate("C04/gap-request/logon", "Logon %d arrived while expecting 1: want one ResendRequest 7=1 16=<%d or chunk end>, engine wrote %s", logonSeq, m.marker, summarize(r))
 			return
 		}
-		m.open = true
-		m.logonNum = logonSeq
-		m.lastRRb, m.lastRRe = 1, rrs[0].IntOr(16, 0)
-		if m.lastRRe == 999999 {
-			m.lastRRe = 0
+		if !m.open {
+			m.open = true
+			m.logonNum = logonSeq
+			m.lastRRb, m.lastRRe = 1, rrs[0].IntOr(16, 0)
+			if m.lastRRe == 999999 {
+				m.lastRRe = 0
+			}
 		}
 	}
 
